@@ -293,6 +293,20 @@ impl Property for C15 {
             expect_err.push(p);
             h.u64(0x5a);
         }
+        // a by-stander whose one select lists a builtin receiver ahead of a receive function with a
+        // filter body, and gets a message for the filter
+        if rng.chance(1, 6) {
+            body.push("bsel = @{ ! [&__integer_and__, #'int { =7 => Ok }, #'bin { =0xff => Ok }] }".to_string());
+            let p = fresh_path(&mut next_child);
+            if rng.chance(1, 2) {
+                body.push("7 bsel".to_string());
+                expect_val.insert(p, "7".to_string());
+            } else {
+                body.push("0xff bsel".to_string());
+                expect_val.insert(p, "0xff".to_string());
+            }
+            h.u64(0xb5e1);
+        }
         // a by-stander whose work is a builtin call at the edge of its index arithmetic
         if rng.chance(1, 5) {
             body.push(format!("ex = @{{ x = [{}], 5 }}", *rng.pick(&EDGE_TOTAL_CALLS)));
